@@ -89,6 +89,9 @@ impl<T: Read + Seek> PagedReader<T> {
                 format!("Page {page} does not exist, only page numbers 0..{max} are valid"),
             ))?;
         }
+        // The buffer is about to be overwritten: forget the cached page first,
+        // otherwise a failed read leaves foreign data behind the old page number.
+        self.page_num = None;
         let offset = page * self.page_size;
         self.reader.seek(SeekFrom::Start(offset))?;
         self.reader.read_exact(&mut self.page_buffer)?;
